@@ -1705,6 +1705,12 @@ tunnel_bind(int bind_fd, struct dnsfd *dns_fds)
 	if (r <= 0)
 		return 0;
 
+	if (r < (int) sizeof(HEADER)) {
+		/* Too short to be a DNS message: it has no id (dns_get_id()
+		   says 0, which may well be the id of a forwarded query) */
+		return 0;
+	}
+
 	id = dns_get_id(packet, r);
 
 	if (debug >= 2) {
